@@ -262,7 +262,7 @@ Qed.
    [copy_sim]: the only place where the byte-level copy (rebuilding the tree through quoted
    descriptors) has to agree with the abstract "deep copy"; it is discharged in QuoteProofs for
    well-formed trees. *)
-Definition is_copy (o : op) : bool := match o with OCopyOut _ | OCopyIn _ => true | _ => false end.
+Definition is_copy (o : op) : bool := match o with OCopyOut _ | OCopyIn _ | OCopyWithin _ _ => true | _ => false end.
 
 Lemma sim_step_nocopy s o :
   is_copy o = false ->
